@@ -142,7 +142,10 @@ func runC08(c *eng.Ctx) {
 		}
 		for _, s := range c.Some(f, eng.StoreField(pb+"Err"), "resp.Err =") {
 			v, _ := storedValue(s.Instr)
-			c.Check(eng.DependsOn(v, func(x ssa.Value) bool { e, ok := x.(*ssa.Extract); return ok && e.Tuple == rl.Instr.(ssa.Value) && e.Index == 1 }), "error-forwarded", s.Instr, f, "an append error is reported in the response", "stores "+p.Desc(v))
+			c.Check(eng.DependsOn(v, func(x ssa.Value) bool {
+				e, ok := x.(*ssa.Extract)
+				return ok && e.Tuple == rl.Instr.(ssa.Value) && e.Index == 1
+			}), "error-forwarded", s.Instr, f, "an append error is reported in the response", "stores "+p.Desc(v))
 		}
 		_, errEdges := eng.ErrCheckEdges(f, rl.Instr.(ssa.Value))
 		errSt := p.Sites(f, eng.StoreField(pb+"Err"))
@@ -349,7 +352,10 @@ func runC08(c *eng.Ctx) {
 		// resets of the leader's replica index never move it beyond its own append position
 		lastAck := c.One(f, eng.CallTo(rrT+".getLastAckIdxFromReplica"), "getLastAckIdxFromReplica")
 		rappend := p.Sites(f, eng.CallTo(rpT+".ResetAppendIndex"))
-		isRemote := func(v ssa.Value) bool { e, ok := v.(*ssa.Extract); return ok && e.Tuple == lastAck.Instr.(ssa.Value) && e.Index == 0 }
+		isRemote := func(v ssa.Value) bool {
+			e, ok := v.(*ssa.Extract)
+			return ok && e.Tuple == lastAck.Instr.(ssa.Value) && e.Index == 0
+		}
 		isAppendNext := func(v ssa.Value) bool {
 			cl, ok := v.(*ssa.Call)
 			return ok && inList(strings.Join(p.CalleeKeys(cl), ""), []string{rpT + ".AppendIndex"})
